@@ -54,6 +54,7 @@ static void apply_pfx(BaseEmitter* e, int arch, const Pfx& p) {
 // instruction instantiations
 struct InstDef { std::string name; int nops; Pfx pfx; std::function<Error(BaseEmitter*, const Label*)> fn; bool small; };
 static std::vector<InstDef> g_inst[3];
+static size_t g_inst_late[3];   // instructions from this index on were added later: their ops sit at the end of the alphabet (stable op indices)
 
 #define OPT(x) uint32_t(InstOptions::x)
 #define I(NAME, NOPS, OPTS, EXTRA, CMT, SMALL, ...) \
@@ -124,6 +125,12 @@ static void build_x86(int arch) {
   I("BAD add eax,xmm1", 2, 0, 0, 0, true, Inst::kIdAdd, eax, xmm1);
   I("BAD lock mov eax,ecx", 2, OPT(kX86_Lock), 0, 0, false, Inst::kIdMov, eax, ecx);
   I("pcmpestri xmm1,xmm2,1,eax,eax,eax (wrong implicit regs)", 6, 0, 0, 0, false, Inst::kIdPcmpestri, xmm1, xmm2, 1, eax, eax, eax);
+  // physical-register forms that only strict validation refuses (or refuses differently than the encoder)
+  g_inst_late[arch] = T.size();
+  I("movzx eax,ecx (validator only)", 2, 0, 0, 0, true, Inst::kIdMovzx, eax, ecx);
+  I("vaddps xmm0,ymm1,xmm2 (validator only)", 3, 0, 0, 0, false, Inst::kIdVaddps, xmm0, ymm1, xmm2);
+  if (is64) I("add eax,rbx (validator only)", 2, 0, 0, 0, false, Inst::kIdAdd, eax, rbx);
+  else I("mov eax,r8d (validator only)", 2, 0, 0, 0, false, Inst::kIdMov, eax, r8d);
 }
 
 static void build_a64() {
@@ -166,6 +173,9 @@ static void build_a64() {
   I("BAD madd x0,w1,x2,x3", 4, 0, 0, 0, true, Inst::kIdMadd, x0, w1, x2, x3);
   I("BAD ldr x0,[x1,0x7FFFFFF]", 2, 0, 0, 0, false, Inst::kIdLdr, x0, ptr(x1, 0x7FFFFFF));
   I("tbl v1.16b,{v2,v4,v6,v8},v6.16b (non-consecutive list)", 6, 0, 0, 0, false, Inst::kIdTbl_v, v1.b16(), v2.b16(), v4.b16(), v6.b16(), v8.b16(), v6.b16());
+  g_inst_late[AA64] = T.size();
+  I("tbl v1.8b,{v31,v1},v3.8b (wrapping list, validator)", 4, 0, 0, 0, true, Inst::kIdTbl_v, v1.b8(), v31.b16(), v1.b16(), v3.b8());
+  I("add w0,x1,w2 (mixed sizes)", 3, 0, 0, 0, false, Inst::kIdAdd, w0, x1, w2);
 }
 #undef I
 
@@ -243,11 +253,13 @@ struct Holder {
     if (cfg == 4) code.set_logger(&logger);
   }
 };
-static const char* kCfgNames[] = {"default", "enc=size|align|predicted", "diag=validate-assembler", "diag=validate-assembler(+intermediate on builder)", "logger"};
-static const int kNumCfg = 5;
+static const char* kCfgNames[] = {"default", "enc=size|align|predicted", "diag=validate-assembler", "diag=validate-assembler(+intermediate on builder)", "logger",
+                                  "diag=validate (assembler: validate-assembler, builder/compiler: validate-intermediate only)"};
+static const int kNumCfg = 6;
 static void apply_cfg(BaseEmitter* e, int cfg, bool is_builder) {
   if (cfg == 1) e->add_encoding_options(EncodingOptions::kOptimizeForSize | EncodingOptions::kOptimizedAlign | EncodingOptions::kPredictedJumps);
   if (cfg == 2) e->add_diagnostic_options(DiagnosticOptions::kValidateAssembler);
+  if (cfg == 5) e->add_diagnostic_options(is_builder ? DiagnosticOptions::kValidateIntermediate : DiagnosticOptions::kValidateAssembler);
   if (cfg == 3) e->add_diagnostic_options(is_builder ? (DiagnosticOptions::kValidateAssembler | DiagnosticOptions::kValidateIntermediate) : DiagnosticOptions::kValidateAssembler);
 }
 // L0 is created through the emitter, L1 directly on the holder (a Builder then has no LabelNode for it yet)
@@ -312,7 +324,7 @@ static std::vector<OpDef> g_ops[3];
 static void build_ops(int arch) {
   auto& V = g_ops[arch];
   char b[96];
-  for (size_t i = 0; i < g_inst[arch].size(); i++) V.push_back(OpDef{O_INST, int(i), 0, 0, g_inst[arch][i].name, g_inst[arch][i].small});
+  for (size_t i = 0; i < g_inst_late[arch]; i++) V.push_back(OpDef{O_INST, int(i), 0, 0, g_inst[arch][i].name, g_inst[arch][i].small});
   for (int p = 0; p < 3; p++) V.push_back(OpDef{O_PREFIX, p, 0, 0, std::string(kPrefixNames[p]) + "()", p == 0});
   V.push_back(OpDef{O_NEWLABEL, 0, 0, 0, "L2=new_label()", true});
   for (int s = 0; s < 3; s++) { snprintf(b, sizeof b, "bind(L%d)", s); V.push_back(OpDef{O_BIND, s, 0, 0, b, s < 2}); }
@@ -355,6 +367,10 @@ static void build_ops(int arch) {
   // Compiler only: emit_annotated_jump() (JumpNode with a JumpAnnotation that lists L0 and L1) with each prefix option
   { int nj = arch == AA64 ? int(sizeof kAJmpA64 / sizeof kAJmpA64[0]) : int(sizeof kAJmpX86 / sizeof kAJmpX86[0]);
     for (int v = 0; v < nj; v++) { const AJmp& j = ajmp_of(arch, v); if (j.x64_only && arch != AX64) continue; V.push_back(OpDef{O_AJMP, v, 0, 0, std::string("annotated ") + j.name, j.small}); } }
+  // instructions added later (validator-only refusals)
+  for (size_t i = g_inst_late[arch]; i < g_inst[arch].size(); i++) V.push_back(OpDef{O_INST, int(i), 0, 0, g_inst[arch][i].name, g_inst[arch][i].small});
+  // alignments outside the valid range (valid: 0, 1 or a power of two <= 64), every mode
+  for (int m = 0; m < 3; m++) for (unsigned n : {24u, 128u, 256u, 264u, 4096u, 0x80000000u}) { snprintf(b, sizeof b, "align(%s,%u)", am[m], n); V.push_back(OpDef{O_ALIGN, m, int(n), 0, b, m == 0 && n == 264u}); }
 }
 static int find_op(int arch, const std::string& name) {
   for (size_t i = 0; i < g_ops[arch].size(); i++) if (g_ops[arch][i].name == name) return int(i);
